@@ -176,6 +176,18 @@ def gen_tree(rng, max_files=30, py_content=None):
     for d in dirs:
         if rng.random() < (0.6 if d is root else 0.35):
             d.files['.gitignore'] = gen_gitignore(rng, d, all_paths)
+    # sibling folders one of whose names is a string prefix of the other: a bare entry in the shorter one
+    # naming something that exists in the longer one must not leak over
+    for d in dirs:
+        for x in list(d.subs):
+            for y in list(d.subs):
+                if x != y and y.startswith(x) and rng.random() < 0.6:
+                    inside = [n for n in list(d.subs[y].files) + list(d.subs[y].subs) if n != '.gitignore']
+                    if inside:
+                        old = d.subs[x].files.get('.gitignore', '')
+                        if old and not old.endswith(('\n', '\r')):
+                            old += '\n'
+                        d.subs[x].files['.gitignore'] = old + rng.choice(inside) + rng.choice(['\n', '/\n', ''])
     if rng.random() < 0.1 and dirs[-1] is not root:      # .gitignore that is a directory
         if '.gitignore' not in dirs[-1].files:
             dirs[-1].subs['.gitignore'] = Node(dirs[-1].comps + ['.gitignore'])
@@ -299,28 +311,39 @@ def tree_from_json(j, comps=()):
     node.files = dict(j['files'])
     for n, s in j['subs'].items():
         node.subs[n] = tree_from_json(s, list(comps) + [n])
+    node.order_files, node.order_subs = list(node.files), list(node.subs)
     return node
 
 
-def stream_walk(ctx):
-    n = ctx.n(260, 2500)
-    cases, metas = [], []
-    stats = dict(trees=0, with_gitignore=0, hidden_files=0, hidden_dirs=0, visible_files=0, files=0,
-                 file_entries_hit=0, prefix_siblings=0)
-    for it in range(n):
-        root = gen_tree(ctx.rng)
-        path = os.path.join(ctx.tmp, 'w%d' % it)
+def _walk_task(task):
+    j, path = task
+    root = tree_from_json(j)
+    try:
         write_tree(root, path)
         read_order(root, path)
         try:
-            obs = real_walk(path)
+            res = dict(ok=True, obs=real_walk(path))
         except Exception as e:
-            ctx.deviation(dict(stream='walk', **{k: v for k, v in common.exc_sig(e).items() if k in ('exc', 'site')}),
-                          dict(tree=tree_json(root), error=common.exc_sig(e)),
-                          'recurse_find_python_folders_and_files raised %r' % (e,))
-            shutil.rmtree(path, ignore_errors=True)
-            continue
+            res = dict(ok=False, sig=common.exc_sig(e))
+        res['tree'] = tree_json(root)      # in listing order
+    finally:
         shutil.rmtree(path, ignore_errors=True)
+    return res
+
+
+def stream_walk(ctx):
+    n = ctx.n(200, 2500)
+    cases, metas = [], []
+    stats = dict(trees=0, with_gitignore=0, hidden_files=0, hidden_dirs=0, visible_files=0, files=0)
+    tasks = [(tree_json(gen_tree(ctx.rng)), os.path.join(ctx.tmp, 'w%d' % it)) for it in range(n)]
+    for (j, path), res in zip(tasks, common.pmap(_walk_task, tasks, chunksize=4)):
+        root = tree_from_json(res['tree'])
+        if not res['ok']:
+            ctx.deviation(dict(stream='walk', exc=res['sig']['exc'], site=res['sig']['site']),
+                          dict(tree=tree_json(root), error=res['sig']),
+                          'recurse_find_python_folders_and_files raised %s' % res['sig']['exc'])
+            continue
+        obs = res['obs']
         obs = [(d, canon(p, path)) for d, p in obs]
         vis_f, vis_d, hid_f, hid_d = oracle_visible(root)
         got_f = {tuple(p[len(FAKE_ROOT) + 1:].split('/')) for d, p in obs if not d}
@@ -358,7 +381,7 @@ def stream_walk(ctx):
         metas.append(meta)
     ctx.stat('walk', stats)
     fn = "(fun c => items_eqb (walk %s (fst c)) (snd c))" % g_str(FAKE_ROOT)
-    fails, err = common.coq_failing(IMPORTS, fn, cases, shard=40, defs=DEFS)
+    fails, err = yield (fn, cases, 25, DEFS)
     if err:
         raise RuntimeError('coq evaluation failed (walk): ' + err)
     for i in fails[:5]:
@@ -373,17 +396,810 @@ def stream_walk(ctx):
         ctx.sample(dict(stream='walk', tree=metas[0]['tree'], observed=metas[0]['observed']))
 
 
+# ----------------------------------------------------------------------------
+# gitignored_paths / expand_relative_ignore_paths directly
+
+class _StubFileIO:
+    def __init__(self, data):
+        self._data = data
+
+    def read(self):
+        return self._data
+
+
+def stream_gitignore(ctx):
+    from jedi.file_io import FolderIO
+    from jedi.inference.references import gitignored_paths
+    rng = ctx.rng
+    folder = '/R/x'
+    dummy = Node(['x'])
+    paths = [['x', 'a'], ['x', 'a', 'm.py'], ['x', 'foo.py'], ['x', 'sub', 'gen', 'n.py'], ['x', 'é'], ['x', 'venv']]
+    texts = ['', '\n', '\r', '\r\n', 'a', 'a\n', 'a\r\nb\rc\n\nd', '/', '//', '/a/', 'a/b/', '#a\n!b\nc*\n*\nd',
+             'a\x0bb\n', 'a\x0cb\n', 'a\x85b\n', 'a\u2028b\n', ' a\n', 'a \n', '\ta\n', 'a/ \n', 'a//b\n', '/a//\n', 'é/ü\n',
+             'a#b\n', 'a!b\n', '\\#a\n', 'a\n#\n', '\n\n\n', 'a\n\r\n\rb', 'a/\r/b/\r\n']
+    for _ in range(ctx.n(500, 4000)):
+        if rng.random() < 0.6:
+            texts.append(gen_gitignore(rng, dummy, paths))
+        else:
+            alpha = ['a', 'b', '/', '/', '\n', '\r', '#', '!', '*', ' ', '.', 'é', '\x0b', '\x85', 'py']
+            texts.append(''.join(rng.choice(alpha) for _ in range(rng.randint(0, 14))))
+    cases, metas, kinds = [], [], dict(abs=0, rel=0)
+    for text in texts:
+        try:
+            a, r = gitignored_paths(FolderIO(folder), _StubFileIO(text.encode('utf8')))
+        except Exception as e:
+            ctx.deviation(dict(stream='gitignore', exc=type(e).__name__), dict(text=text), 'gitignored_paths raised %r' % (e,))
+            continue
+        a, r = sorted(a), sorted(r)
+        kinds['abs'] += len(a)
+        kinds['rel'] += len(r)
+        # direct oracle: the documented reading of the file
+        oa, ob = oracle_entries(text)
+        exp_a = sorted({folder + '/' + '/'.join(e) for e in oa})
+        exp_r = sorted({(folder, n) for n in ob})
+        ok = (a == exp_a and r == exp_r)
+        ctx.count('gitignore', text, nontrivial=bool(a or r))
+        cases.append('(%s, %s, %s)' % (g_str(text), g_list(a, g_str, 'str'),
+                                       g_list(r, lambda t: '(%s, %s)' % (g_str(t[0]), g_str(t[1])), 'str * str')))
+        metas.append(dict(text=text, abs=a, rel=r, oracle_abs=exp_a, oracle_rel=exp_r, oracle_ok=ok))
+    ctx.stat('gitignore', dict(texts=len(texts), **kinds))
+    d = g_str(folder)
+    fn = ("(fun c => let '(t, oa, orl) := c in let es := parse_gitignore t in "
+          "seteq (abs_of %s es) oa && seteq (map snd (rel_of %s es)) (map snd orl) "
+          "&& forallb (fun p => str_eqb (fst p) %s) orl)" % (d, d, d))
+    fails, err = yield (fn, cases, 400, DEFS)
+    if err:
+        raise RuntimeError('coq evaluation failed (gitignore): ' + err)
+    for m in [m for m in metas if not m['oracle_ok']][:3]:
+        ctx.deviation(dict(stream='gitignore', cls='entries-differ-from-documented-reading'), m,
+                      '.gitignore %r is read as abs=%r rel=%r, the documented reading gives abs=%r rel=%r' % (
+                          m['text'], m['abs'], m['rel'], m['oracle_abs'], m['oracle_rel']))
+    for i in fails[:5]:
+        if metas[i]['oracle_ok']:
+            ctx.violation('obligation', dict(what='correspondence parse_gitignore: model and gitignored_paths differ',
+                                             input=metas[i],
+                                             model=common.coq_show(IMPORTS, ['parse_gitignore %s' % g_str(metas[i]['text'])])[-800:]),
+                          nofail=True)
+    ctx.sample(dict(stream='gitignore', **metas[6]))
+
+
+def stream_expand(ctx):
+    from jedi.file_io import FolderIO
+    from jedi.inference.references import expand_relative_ignore_paths
+    rng = ctx.rng
+    pool = ['/R', '/R/a', '/R/ab', '/R/a/b', '/R/a.b', '/R/a/ab', '/R/ab/a', '/R/b', '/Ra', '/R/a/b/c', '/R/é']
+    folders = pool + ['/R/a/', '/R//', '/', '/R/a//', '', '/R/a/b/']
+    names = ['foo', 'a', '']
+    sets = [[(f, n)] for f in folders for n in names[:2]]
+    for _ in range(ctx.n(150, 1500)):
+        sets.append([(rng.choice(folders), rng.choice(names)) for _ in range(rng.randint(0, 5))])
+    cases, metas = [], []
+    for cur in pool:
+        for rel in sets:
+            try:
+                obs = sorted(expand_relative_ignore_paths(FolderIO(cur), set(rel)))
+            except Exception as e:
+                ctx.deviation(dict(stream='expand', exc=type(e).__name__), dict(cur=cur, rel=rel),
+                              'expand_relative_ignore_paths raised %r' % (e,))
+                continue
+            # direct oracle: a relative entry applies in its folder and below it, nowhere else
+            exp = set()
+            for f, n in rel:
+                fc = f.rstrip('/')
+                if cur == f or cur[:len(fc) + 1] == fc + '/':
+                    exp.add(cur + '/' + n)
+            ok = sorted(exp) == obs
+            ctx.count('expand', (cur, tuple(rel)), nontrivial=bool(rel))
+            cases.append('(%s, %s, %s)' % (g_str(cur), g_list(rel, lambda t: '(%s, %s)' % (g_str(t[0]), g_str(t[1])), 'str * str'),
+                                           g_list(obs, g_str, 'str')))
+            metas.append(dict(cur=cur, rel=rel, observed=obs, oracle=sorted(exp), oracle_ok=ok))
+    fn = "(fun c => let '(cur, rel, obs) := c in seteq (expand true cur rel) obs)"
+    fails, err = yield (fn, cases, 1500, DEFS)
+    if err:
+        raise RuntimeError('coq evaluation failed (expand): ' + err)
+    for m in [m for m in metas if not m['oracle_ok']][:3]:
+        ctx.deviation(dict(stream='expand', cls='relative-entry-applied-outside-its-folder'), m,
+                      'relative entries %r expanded at %s give %r; only entries of folders at or above it apply: %r' % (
+                          m['rel'], m['cur'], m['observed'], m['oracle']))
+    for i in fails[:5]:
+        if metas[i]['oracle_ok']:
+            ctx.violation('obligation', dict(what='correspondence expand: model and expand_relative_ignore_paths differ',
+                                             input=metas[i]), nofail=True)
+    ctx.stat('expand', dict(cases=len(cases), applied=sum(1 for m in metas if m['observed'])))
+
+
+# ----------------------------------------------------------------------------
+# split_search_string, _try_to_skip_duplicates, search_in_file_ios directly
+
+def stream_split(ctx):
+    from jedi.api.helpers import split_search_string
+    rng = ctx.rng
+    strings = ['', ' ', '.', 'a', 'a.b', 'a.b.c', 'def a', 'def a.b', 'class A', 'class  A', ' a', 'a ', 'def', 'def ', 'function f',
+               'def def a', 'a..b', '.a', 'a.', 'class a.', 'x y z.w', 'de f', 'DEF a', 'def\ta', 'é.ü', 'def é']
+    alpha = ['a', 'b', 'def', 'class', ' ', ' ', '.', '.', 'f', 'é', 'D']
+    for _ in range(ctx.n(300, 3000)):
+        strings.append(''.join(rng.choice(alpha) for _ in range(rng.randint(0, 7))))
+    cases, metas = [], []
+    for s in strings:
+        try:
+            ty, names = split_search_string(s)
+        except Exception as e:
+            ctx.deviation(dict(stream='split', exc=type(e).__name__), dict(string=s), 'split_search_string raised %r' % (e,))
+            continue
+        ctx.count('split', s, nontrivial=(' ' in s or '.' in s))
+        cases.append('(%s, %s, %s)' % (g_str(s), g_str(ty), g_list(names, g_str, 'str')))
+        metas.append(dict(string=s, type=ty, names=names))
+    fn = "(fun c => let '(s, ty, ns) := c in let r := split_search_string s in str_eqb (fst r) ty && strs_eqb (snd r) ns)"
+    fails, err = yield (fn, cases, 2000, DEFS)
+    if err:
+        raise RuntimeError('coq evaluation failed (split): ' + err)
+    for i in fails[:5]:
+        ctx.violation('obligation', dict(what='correspondence split_search_string: model and implementation differ',
+                                         input=metas[i]), nofail=True)
+
+
+class _StubName:
+    def __init__(self, tree_name):
+        self.tree_name = tree_name
+
+
+class _StubDef:
+    def __init__(self, tag, tree_name, type_, module_path):
+        self.tag, self._name, self.type, self.module_path = tag, _StubName(tree_name), type_, module_path
+
+
+def stream_dedupe(ctx):
+    from pathlib import Path
+    from jedi.api import project as project_mod
+    rng = ctx.rng
+    nodes = [object() for _ in range(4)]
+    paths = ['/R/a.py', '/R/b/__init__.py', '/R/a.pyi']
+    cases, metas = [], []
+    n_dropped = 0
+    for it in range(ctx.n(500, 5000)):
+        k = rng.randint(0, 9)
+        recs = []
+        for j in range(k):
+            ni = rng.choice([None, None, 0, 1, 2, 3])
+            ty = rng.choice(['module', 'module', 'statement', 'class', 'namespace', 'function'])
+            pi = rng.choice([None, 0, 0, 1, 2])
+            recs.append((j, ni, ty, pi))
+        defs = [_StubDef(j, None if ni is None else nodes[ni], ty, None if pi is None else Path(paths[pi]))
+                for (j, ni, ty, pi) in recs]
+        try:
+            out = [d.tag for d in project_mod._try_to_skip_duplicates(lambda: iter(defs))()]
+        except Exception as e:
+            ctx.deviation(dict(stream='dedupe', exc=type(e).__name__), dict(defs=recs), '_try_to_skip_duplicates raised %r' % (e,))
+            continue
+        n_dropped += len(recs) - len(out)
+        # direct oracle: the clauses of C19_dedupe_keeps_first, plus order
+        kept = [recs[t] for t in out]
+        knodes = [r[1] for r in kept if r[1] is not None]
+        kmods = [r[3] for r in kept if r[2] == 'module' and r[3] is not None]
+        ok = (len(set(knodes)) == len(knodes) and len(set(kmods)) == len(kmods) and out == sorted(set(out)) and
+              all(r[0] in out or (r[1] is not None and r[1] in knodes) or (r[2] == 'module' and r[3] is not None and r[3] in kmods)
+                  for r in recs))
+        ctx.count('dedupe', tuple(recs), nontrivial=len(out) < len(recs))
+        cases.append('(%s, %s)' % (
+            g_list(recs, lambda r: '{| d_node := %s; d_is_module := %s; d_mpath := %s; d_tag := %s |}' % (
+                g_opt(r[1], g_N), g_bool(r[2] == 'module'), g_opt(None if r[3] is None else paths[r[3]], g_str), g_N(r[0])), 'defn'),
+            g_list(out, g_N, 'N')))
+        metas.append(dict(defs=recs, kept=out, oracle_ok=ok))
+    fn = "(fun c => ns_eqb (map d_tag (dedupe (fst c))) (snd c))"
+    fails, err = yield (fn, cases, 1500, DEFS)
+    if err:
+        raise RuntimeError('coq evaluation failed (dedupe): ' + err)
+    for m in [m for m in metas if not m['oracle_ok']][:3]:
+        ctx.violation('obligation', dict(what='_try_to_skip_duplicates: a tree name / module path is reported twice, or a definition that is '
+                                              'no duplicate is dropped (stub definitions: (tag, node, type, path))', input=m), nofail=True)
+    for i in fails[:5]:
+        if metas[i]['oracle_ok']:
+            ctx.violation('obligation', dict(what='correspondence dedupe: model and _try_to_skip_duplicates differ', input=metas[i]),
+                          nofail=True)
+    ctx.stat('dedupe', dict(cases=len(cases), dropped=n_dropped))
+
+
+class _StubMod:
+    def __init__(self, i):
+        self.i = i
+
+
+ENUM_DEF = """
+Fixpoint enum_from (i : N) (l : list bool) : list (N * bool) :=
+  match l with [] => [] | b :: r => (i, b) :: enum_from (N.succ i) r end.
+"""
+
+
+def stream_limits(ctx):
+    from jedi.inference import references
+    rng = ctx.rng
+    lists = [[], [True] * 29, [True] * 30, [True] * 31, [True] * 45, [False] * 50 + [True] * 31,
+             [False] * 1999 + [True], [False] * 2000 + [True], [False] * 1999 + [True, True],
+             [True] * 29 + [False] * 1970 + [True, True], [True] * 10 + [False] * 2100]
+    for _ in range(ctx.n(120, 1000)):
+        n = rng.randint(0, 90)
+        dens = rng.choice([0.1, 0.4, 0.7, 1.0])
+        lists.append([rng.random() < dens for _ in range(n)])
+    for _ in range(ctx.n(4, 20)):
+        n = rng.randint(1985, 2030)
+        lists.append([rng.random() < 0.012 for _ in range(n)])
+    orig = references._check_fs
+    cases, metas = [], []
+    try:
+        references._check_fs = lambda inference_state, file_io, regex: (_StubMod(file_io[0]) if file_io[1] else None)
+        for flags in lists:
+            try:
+                out = [m.i for m in references.search_in_file_ios(None, iter(list(enumerate(flags))), 'zq_name')]
+            except Exception as e:
+                ctx.deviation(dict(stream='limits', exc=type(e).__name__), dict(n=len(flags)), 'search_in_file_ios raised %r' % (e,))
+                continue
+            idx = [i for i, f in enumerate(flags) if f]
+            # direct oracle: within the documented limits nothing is lost
+            within = len(flags) <= 2000 and len(idx) <= 30
+            ok = (out == idx) if within else (out == idx[:len(out)] and len(out) <= 30)
+            ctx.count('limits', tuple(flags), nontrivial=bool(idx))
+            cases.append('(%s, %s)' % (g_list(flags, g_bool, 'bool'), g_list(out, g_N, 'N')))
+            metas.append(dict(n_files=len(flags), n_matching=len(idx), yielded=out, within_limits=within, oracle_ok=ok,
+                              matching_first=idx[:40]))
+    finally:
+        references._check_fs = orig
+    fn = "(fun c => ns_eqb (map fst (search_in_file_ios snd (enum_from 0 (fst c)))) (snd c))"
+    fails, err = yield (fn, cases, 60, DEFS + ENUM_DEF)
+    if err:
+        raise RuntimeError('coq evaluation failed (limits): ' + err)
+    for m in [m for m in metas if not m['oracle_ok']][:3]:
+        if m['within_limits']:
+            ctx.deviation(dict(stream='limits', cls='file-lost-within-documented-limits'), m,
+                          '%d files, %d contain the word (within the limits 2000 / 30) but only %d are searched' % (
+                              m['n_files'], m['n_matching'], len(m['yielded'])))
+        else:
+            ctx.violation('obligation', dict(what='search_in_file_ios beyond the limits: yields more than 30 modules or not a prefix of '
+                                                  'the matching files', input=m), nofail=True)
+    for i in fails[:5]:
+        if metas[i]['oracle_ok']:
+            ctx.violation('obligation', dict(what='correspondence scan: model (30 parsed / 2000 opened) and search_in_file_ios differ',
+                                             input=metas[i]), nofail=True)
+    ctx.stat('limits', dict(cases=len(cases), beyond_limits=sum(1 for m in metas if not m['within_limits'])))
+
+
+# ----------------------------------------------------------------------------
+# python sources with known definitions
+
+IDENTS = ['zq_alpha', 'zq_al', 'zq_beta', 'Zq_alpha', 'zq_gamma', 'ZqCls', 'zqcls', 'ZqOther', 'zq_fn', 'zq_fn2', 'zq_x1', 'zq_delta']
+
+
+class Src:
+    def __init__(self):
+        self.lines = []
+        self.defs = []     # (name, type, line, col, top_level)
+
+    def add(self, text, *defs):
+        """defs: (name, type, top_level); the column is found in the line"""
+        self.lines.append(text)
+        ln = len(self.lines)
+        pos = 0
+        for name, ty, top in defs:
+            m = re.compile(r'(?<![A-Za-z0-9_])%s(?![A-Za-z0-9_])' % re.escape(name)).search(text, pos)
+            pos = m.end()
+            self.defs.append((name, ty, ln, m.start(), top))
+
+    def text(self):
+        return '\n'.join(self.lines) + '\n'
+
+
+def gen_source(rng, idents=IDENTS, extra=False):
+    s = Src()
+
+    def pick():
+        return rng.choice(idents)
+    for _ in range(rng.randint(1, 5)):
+        k = rng.randint(0, 8 if extra else 6)
+        if k == 0:
+            n = pick()
+            s.add('%s = %d' % (n, rng.randint(0, 9)), (n, 'statement', True))
+        elif k == 1:
+            f, p, l = pick(), pick(), pick()
+            if p == l:
+                l = l + '_l'
+            s.add('def %s(%s, zq_dflt=1):' % (f, p), (f, 'function', True), (p, 'param', False), ('zq_dflt', 'param', False))
+            s.add('    %s = 2' % l, (l, 'statement', False))
+            if rng.random() < 0.4:
+                g = pick()
+                s.add('    def %s():' % g, (g, 'function', False))
+                s.add('        pass')
+            s.add('    return %s' % l)
+        elif k == 2:
+            c, a, m, sa = pick(), pick(), pick(), pick()
+            s.add('class %s:' % c, (c, 'class', True))
+            s.add('    %s = 3' % a, (a, 'statement', False))
+            if rng.random() < 0.3:
+                m = '__init__'
+            s.add('    def %s(self):' % m, (m, 'function', False), ('self', 'param', False))
+            s.add('        self.%s = 4' % sa, (sa, 'statement', False))
+        elif k == 3:
+            n = pick()
+            s.add('for %s in [1, 2]:' % n, (n, 'statement', True))
+            s.add('    pass')
+        elif k == 4:
+            n = pick()
+            s.add('if 1:')
+            s.add('    %s = 5' % n, (n, 'statement', True))
+        elif k == 5:
+            s.add('# %s is only mentioned here' % pick())
+        elif k == 6:
+            n = pick()
+            s.add("%s_s = '%s'" % (n, pick()), (n + '_s', 'statement', True))
+        elif k == 7:
+            a, b = pick(), pick()
+            if a == b:
+                b = b + '_t'
+            s.add('%s, %s = 1, 2' % (a, b), (a, 'statement', True), (b, 'statement', True))
+        else:
+            f, l = pick(), pick()
+            s.add('def %s(*zq_args, **zq_kw):' % f, (f, 'function', True), ('zq_args', 'param', False), ('zq_kw', 'param', False))
+            s.add('    for %s in [1]:' % l, (l, 'statement', False))
+            s.add('        %s_w = %s' % (l, l), (l + '_w', 'statement', False))
+            s.add('    return 1')
+    return s
+
+
+# ----------------------------------------------------------------------------
+# Script.search on a buffer
+
+def _script_task(task):
+    code, queries = task
+    import jedi
+    out = dict(names={}, results=[])
+    if not jedi.settings.cache_directory.endswith('_%d' % os.getpid()):
+        jedi.settings.cache_directory = jedi.settings.cache_directory + '_%d' % os.getpid()
+    try:
+        sc = jedi.Script(code)
+        for sc_all in (False, True):
+            out['names'][sc_all] = [(n.line, n.column, n.name, n.type) for n in sc.get_names(all_scopes=sc_all)]
+        for (q, sc_all, complete) in queries:
+            f = sc.complete_search if complete else sc.search
+            out['results'].append([(n.line, n.column, n.name, n.type) for n in f(q, all_scopes=sc_all)])
+        out['ok'] = True
+    except Exception as e:
+        out['ok'] = False
+        out['sig'] = common.exc_sig(e)
+    return out
+
+
+def stream_script(ctx):
+    rng = ctx.rng
+    tasks, srcs = [], []
+    for _ in range(ctx.n(60, 600)):
+        s = gen_source(rng, extra=True)
+        names = sorted({d[0] for d in s.defs}) or ['zq_none']
+        queries = []
+        for _ in range(10):
+            n = rng.choice(names)
+            w = rng.choice([n, n, n.lower(), n.upper(), n[:rng.randint(1, len(n))], n + 'x', 'zq_', ''])
+            ty = rng.choice(['', '', '', 'class ', 'def ', 'function ', 'statement ', 'param ', ' ', 'class  ', 'Class ', 'module '])
+            q = ty + w + rng.choice(['', '', '', '', ' '])
+            queries.append((q, rng.random() < 0.5, rng.random() < 0.4))
+        tasks.append((s.text(), queries))
+        srcs.append(s)
+    results = common.pmap(_script_task, tasks, chunksize=2)
+    cases, metas = [], []
+    nonempty = nq = 0
+    for (code, queries), s, r in zip(tasks, srcs, results):
+        if not r['ok']:
+            ctx.deviation(dict(stream='script', exc=r['sig']['exc'], site=r['sig']['site']), dict(source=code, error=r['sig']),
+                          'Script.search / get_names raised %s' % r['sig']['exc'])
+            continue
+        # the generator's own knowledge of the definitions vs get_names (independent of search)
+        for sc_all in (False, True):
+            exp = sorted((ln, col, n, ty) for (n, ty, ln, col, top) in s.defs if top or sc_all)
+            got = sorted(tuple(x) for x in r['names'][sc_all])
+            if exp != got:
+                ctx.violation('obligation', dict(what='get_names(all_scopes=%s) differs from the definitions the generator wrote' % sc_all,
+                                                 source=code, expected=exp, got=got), nofail=True)
+        per = {False: [], True: []}
+        for (q, sc_all, complete), obs in zip(queries, r['results']):
+            obs = [tuple(x) for x in obs]
+            names = [tuple(x) for x in r['names'][sc_all]]
+            ty, _, w = q.rpartition(' ')
+            ty = 'function' if ty == 'def' else ty
+            if '.' in w:
+                continue
+            flt = [n for n in names
+                   if (n[2].lower().startswith(w.lower()) if complete else n[2].lower() == w.lower()) and (not ty or n[3] == ty)]
+            nonempty += bool(obs)
+            nq += 1
+            ctx.count('script', (code, q, sc_all, complete), nontrivial=bool(obs))
+            meta = dict(source=code, query=q, all_scopes=sc_all, complete=complete, observed=obs, filtered_get_names=flt)
+            if obs != flt:
+                ctx.deviation(dict(stream='script', cls='search-differs-from-filtered-get_names'), meta,
+                              'Script.%s(%r, all_scopes=%s) = %r but filtering get_names gives %r' % (
+                                  'complete_search' if complete else 'search', q, sc_all, obs, flt))
+                continue
+            per[sc_all].append((complete, q, [names.index(o) for o in obs], meta))
+        for sc_all in (False, True):
+            if not per[sc_all]:
+                continue
+            names = [tuple(x) for x in r['names'][sc_all]]
+            cases.append('(%s, %s)' % (
+                g_list(list(enumerate(names)),
+                       lambda t: '{| n_name := %s; n_type := %s; n_id := %s |}' % (g_str(t[1][2]), g_str(t[1][3]), g_N(t[0])), 'sname'),
+                g_list(per[sc_all], lambda t: '(%s, %s, %s)' % (g_bool(t[0]), g_str(t[1]), g_list(t[2], g_N, 'N')), 'bool * str * list N')))
+            metas.append([t[3] for t in per[sc_all]])
+    fn = ("(fun c => forallb (fun x => let '(cpl, q, ids) := x in match script_search cpl q (fst c) with "
+          "Some r => ns_eqb (map n_id r) ids | None => false end) (snd c))")
+    fails, err = yield (fn, cases, 12, DEFS)
+    if err:
+        raise RuntimeError('coq evaluation failed (script): ' + err)
+    for i in fails[:5]:
+        ctx.violation('obligation', dict(what='correspondence script_search: model and Script.search differ on one of these queries (the '
+                                              'get_names filter oracle agreed with the implementation)', input=metas[i]), nofail=True)
+    ctx.stat('script', dict(queries=nq, nonempty=nonempty, coq_cases=len(cases)))
+    if metas:
+        ctx.sample(dict(stream='script', source=metas[0][0]['source'][:300],
+                        **{k: metas[0][0][k] for k in ('query', 'all_scopes', 'complete', 'observed')}))
+
+
+# ----------------------------------------------------------------------------
+# Project.search / complete_search on generated trees
+
+S_DIRS = ['a', 'ab', 'zq_pkg', 'zq_sub', 'zq_igd', 'zq_ns', 'venv', '.venv', '__pycache__', '.tox', '.mypy_cache', 'build', 'zq_pk']
+S_FILES = ['zq_mod.py', 'zq_util.py', '__init__.py', 'zq_gen.py', 'zq_st.pyi', 'zq_mod.pyi', 'zq_m2.py', 'notes.txt', 'zq_data.pyc',
+           'zq_al.py']
+
+
+def gen_search_tree(rng):
+    global DIR_NAMES, FILE_NAMES
+    save = DIR_NAMES, FILE_NAMES
+    DIR_NAMES, FILE_NAMES = S_DIRS, S_FILES
+    srcs = {}
+
+    def content(rng_, comps, name):
+        s = gen_source(rng_)
+        srcs[tuple(comps + [name])] = s
+        return s.text()
+    try:
+        root = gen_tree(rng, max_files=26, py_content=content)
+    finally:
+        DIR_NAMES, FILE_NAMES = save
+    for d in root.all_dirs():          # e.g. the m.py inside a folder called .gitignore
+        for n in list(d.files):
+            key = tuple(d.comps + [n])
+            if n.endswith(('.py', '.pyi')) and key not in srcs:
+                s = gen_source(rng)
+                srcs[key] = s
+                d.files[n] = s.text()
+    return root, srcs
+
+
+def _search_task(task):
+    j, path, queries = task
+    import jedi
+    jedi.settings.cache_directory = os.path.join(os.path.dirname(path), 'cache_%d' % os.getpid())
+    write_tree(tree_from_json(j), path)
+    try:
+        return _search_queries(jedi, path, queries)
+    finally:
+        shutil.rmtree(path, ignore_errors=True)
+
+
+def _search_queries(jedi, path, queries):
+    res = []
+    try:
+        project = jedi.Project(path)
+    except Exception as e:
+        return [dict(ok=False, sig=common.exc_sig(e))] * len(queries)
+    for (q, sc_all, complete) in queries:
+        try:
+            f = project.complete_search if complete else project.search
+            hits = []
+            for d in f(q, all_scopes=sc_all):
+                mp = d.module_path
+                if mp is None:
+                    rel = None
+                else:
+                    mp = str(mp)
+                    rel = mp[len(path) + 1:] if mp.startswith(path + os.sep) else 'EXT:' + os.path.basename(mp)
+                hits.append((rel, d.line, d.column, d.name, d.type))
+            res.append(dict(ok=True, hits=hits))
+        except Exception as e:
+            res.append(dict(ok=False, sig=common.exc_sig(e)))
+    return res
+
+
+INITS = ('__init__.py', '__init__.pyi')
+
+
+def check_search(ctx, root, srcs, exp, q, sc_all, complete, hits, tree_meta):
+    """The property's clauses on one query.  Returns True when nothing is wrong."""
+    ty, _, w = q.rpartition(' ')
+    ty = 'function' if ty == 'def' else ty
+    comps = w.split('.')
+    first, last = comps[0], comps[-1]
+    dotted = len(comps) > 1
+    hitset = {}
+    for h in hits:
+        hitset[h] = hitset.get(h, 0) + 1
+    inproj = [h for h in hits if h[0] is not None and not h[0].startswith('EXT:')]
+    meta = dict(query=q, all_scopes=sc_all, complete=complete, hits=hits, **tree_meta)
+    fname = 'complete_search' if complete else 'search'
+    ok = True
+
+    def dev(cls, data, what):
+        """record; True when it is a new violation (stop looking at this query)"""
+        return ctx.deviation(dict(stream='search', cls=cls), dict(data, **meta), what) != 'known'
+
+    def name_ok(n, target, exact_case):
+        if exact_case:
+            return n.startswith(target) if complete else n == target
+        return n.lower().startswith(target.lower()) if complete else n.lower() == target.lower()
+
+    def is_hidden_file(rel):
+        return tuple(rel.split('/')) in exp['hid_f']
+
+    def root_leak(h):
+        """the known sys.path step: a hidden module / package directly in the project root whose
+        name matches the first component of the query"""
+        rel = h[0].split('/')
+        if len(rel) == 1:
+            stem = rel[0].rsplit('.', 1)[0]
+        elif len(rel) == 2 and rel[1] in INITS:
+            stem = rel[0]
+        else:
+            return False
+        if dotted:
+            return stem == first
+        return name_ok(stem, first, False) and h[3] == stem and h[4] == 'module'
+
+    def visible_package(h):
+        """the package of a visible folder, reported with the path of its __init__ file (which a
+        .gitignore may name): the folder is what is reported"""
+        rel = h[0].split('/')
+        return h[4] == 'module' and len(rel) >= 2 and rel[-1] in INITS and tuple(rel[:-1]) in exp['vis_d'] and h[3] == rel[-2]
+
+    def twin_visible(h):
+        """module hit whose file is hidden but whose .py/.pyi twin is visible: jedi found the visible
+        file and converted between stub and implementation; it is the module of that name"""
+        twin = h[0][:-1] if h[0].endswith('.pyi') else h[0] + 'i'
+        return h[4] == 'module' and tuple(twin.split('/')) in exp['vis_f']
+
+    # 1. nothing from ignored places
+    seen_cls = set()
+    for h in inproj:
+        if is_hidden_file(h[0]) and not twin_visible(h) and not visible_package(h):
+            ok = False
+            cls = 'hidden-root-module-via-sys-path' if root_leak(h) else 'hit-from-ignored-place'
+            if cls in seen_cls:
+                continue
+            seen_cls.add(cls)
+            if dev(cls, dict(hit=h), 'Project.%s(%r) reports %r from the ignored file %s' % (fname, q, h[3], h[0])):
+                return False
+    if dotted:
+        return ok
+    # 2. every definition spelled that way in every visible python file
+    allowed = set()
+    for key in exp['vis_f']:
+        rel = '/'.join(key)
+        for (n, t, ln, col, top) in srcs[key].defs:
+            if not (top or sc_all) or (ty and t != ty):
+                continue
+            if name_ok(n, last, False):
+                allowed.add((rel, ln, col, n, t))
+            if name_ok(n, last, True) and (rel, ln, col, n, t) not in hitset:
+                if dev('definition-not-found', dict(missing=(rel, ln, col, n, t)),
+                              'Project.%s(%r, all_scopes=%s) misses the %s %s defined in %s line %d' % (fname, q, sc_all, t, n, rel, ln)):
+                    return False
+                ok = False
+    # 3. every module / package so named
+    if ty in ('', 'module', 'namespace'):
+        for key in exp['vis_f']:
+            stem = key[-1].rsplit('.', 1)[0]
+            if stem == '__init__':
+                continue
+            rel = '/'.join(key)
+            twin = rel[:-1] if rel.endswith('.pyi') else rel + 'i'
+            if name_ok(stem, last, False):
+                allowed.add((rel, 1, 0, stem, 'module'))
+                allowed.add((twin, 1, 0, stem, 'module'))
+            if name_ok(stem, last, True) and ty in ('', 'module'):
+                if not any(h[0] in (rel, twin) and h[3] == stem and h[4] == 'module' for h in hits):
+                    # complete_search completes module names only through the sys.path step (project root)
+                    cls = 'nested-module-name-not-completed' if (complete and stem != last and len(key) > 1) else 'module-not-found'
+                    if dev(cls, dict(missing=rel),
+                                  'Project.%s(%r) does not report the module %s' % (fname, q, rel)):
+                        return False
+                    ok = False
+        n_ns_visible = 0
+        for key in exp['vis_d']:
+            node = root
+            for c in key:
+                node = node.subs[c]
+            inits = [f for f in INITS if f in node.files]
+            rel = '/'.join(key)
+            if name_ok(key[-1], last, False):
+                for f in INITS:
+                    allowed.add((rel + '/' + f, 1, 0, key[-1], 'module'))
+            if not name_ok(key[-1], last, True):
+                continue
+            if inits:
+                if ty in ('', 'module') and not any(h[0] in {rel + '/' + f for f in inits} and h[3] == key[-1] and h[4] == 'module'
+                                                    for h in hits):
+                    cls = 'nested-module-name-not-completed' if (complete and key[-1] != last and len(key) > 1) else 'package-not-found'
+                    if dev(cls, dict(missing=rel),
+                                  'Project.%s(%r) does not report the package %s' % (fname, q, rel)):
+                        return False
+                    ok = False
+            else:
+                n_ns_visible += 1
+        if not complete and last.startswith('zq'):
+            pathless = [h for h in hits if h[0] is None and h[4] in ('module', 'namespace') and h[3] == last]
+            if ty in ('', 'namespace') and len([h for h in pathless if h[4] == 'namespace']) < n_ns_visible:
+                if dev('namespace-package-not-found', dict(visible_folders=n_ns_visible),
+                              'Project.search(%r): %d visible folders of that name without __init__, fewer namespace hits' % (q, n_ns_visible)):
+                    return False
+                ok = False
+            # the sys.path step lists the root folder once more; a pathless module hit for a *hidden*
+            # root folder is the known leak, anything beyond that is not explained
+            root_vis_ns = (last,) in exp['vis_d'] and not any(f in root.subs[last].files for f in INITS)
+            root_hid_ns = (last,) in exp['hid_d'] and not any(f in root.subs[last].files for f in INITS)
+            extra = len(pathless) - n_ns_visible - (1 if root_vis_ns else 0) - (1 if last + '.pyc' in root.files else 0)
+            if ty == '' and extra > 0:
+                cls = 'hidden-root-module-via-sys-path' if (root_hid_ns and extra == 1) else 'hit-from-ignored-place'
+                if dev(cls, dict(pathless_hits=pathless),
+                              'Project.search(%r) reports a folder of that name although only %d visible folders have it' % (q, n_ns_visible)):
+                    return False
+                ok = False
+    # 4. nothing else from inside the project (wrong name, wrong type, wrong scope, a reference, a duplicate)
+    for h in inproj:
+        if is_hidden_file(h[0]):
+            continue
+        if h not in allowed and not (complete and h[4] == 'module' and h[0].endswith('.pyc')):
+            ctx.violation('obligation', dict(what='Project.search reports something in the project that is not a definition / module of '
+                                                  'that name, type and scope', hit=h, **meta), nofail=True)
+            return False
+        if hitset[h] > 1:
+            ctx.violation('obligation', dict(what='Project.search reports the same definition twice (de-duplication)', hit=h, **meta),
+                          nofail=True)
+            return False
+    return ok
+
+
+def stream_search(ctx):
+    rng = ctx.rng
+    tasks, infos = [], []
+    stats = dict(trees=0, queries=0, hits=0, hidden_files=0, visible_files=0)
+    for it in range(ctx.n(48, 500)):
+        root, srcs = gen_search_tree(rng)
+        path = os.path.join(ctx.tmp, 's%d' % it)
+        vis_f, vis_d, hid_f, hid_d = oracle_visible(root)
+        exp = dict(vis_f=vis_f, vis_d=vis_d, hid_f=hid_f, hid_d=hid_d)
+        names = sorted({d[0] for s in srcs.values() for d in s.defs if d[0].startswith(('zq', 'Zq'))})
+        stems = sorted({k[-1].rsplit('.', 1)[0] for k in srcs if not k[-1].startswith('__init__')})
+        dirs = sorted({d.comps[-1] for d in root.all_dirs() if d.comps})
+        queries = []
+        for n in rng.sample(names, min(len(names), 7)):
+            queries.append((n, False, False))
+            queries.append((n, True, False))
+            queries.append((n[:rng.randint(3, len(n))], rng.random() < 0.5, True))
+            if rng.random() < 0.5:
+                queries.append((rng.choice(['class ', 'def ', 'function ', 'statement ', 'param ']) + n, rng.random() < 0.6,
+                                rng.random() < 0.3))
+        for n in stems + [d for d in dirs if d.startswith('zq')]:
+            queries.append((n, False, False))
+            if rng.random() < 0.3:
+                queries.append((n[:4], False, True))
+        for n in rng.sample(['venv', 'build', 'a', 'ab', 'zq_', 'Zq', 'zq_nothing', '__init__', '__init__'], 3):
+            queries.append((n, n == '__init__' or rng.random() < 0.5, n in ('zq_', 'Zq')))
+        for key in sorted(srcs):
+            # dotted: module.attribute for a module in the project root whose name is not also an identifier
+            # (inferring a function of that name needs typeshed, DESIGN §E)
+            if len(key) == 1 and key[0].endswith('.py') and key[0][:-3] not in IDENTS and key[0] != '__init__.py' \
+                    and srcs[key].defs and rng.random() < 0.5:
+                queries.append((key[0][:-3] + '.' + rng.choice([d for d in srcs[key].defs if d[4]] or srcs[key].defs)[0], False, False))
+        tasks.append((tree_json(root), path, queries))
+        infos.append((root, srcs, exp))
+        stats['trees'] += 1
+        stats['hidden_files'] += len(hid_f)
+        stats['visible_files'] += len(vis_f)
+    results = common.pmap(_search_task, tasks, chunksize=1)
+    for (j, path, queries), (root, srcs, exp), res in zip(tasks, infos, results):
+        tree_meta = dict(tree=j)
+        tkey = json.dumps(j, sort_keys=True)
+        for (q, sc_all, complete), r in zip(queries, res):
+            stats['queries'] += 1
+            if not r['ok']:
+                ctx.deviation(dict(stream='search', exc=r['sig']['exc'], site=r['sig']['site']),
+                              dict(query=q, all_scopes=sc_all, complete=complete, error=r['sig'], **tree_meta),
+                              'Project.search raised %s' % r['sig']['exc'])
+                continue
+            hits = [tuple(h) for h in r['hits']]
+            stats['hits'] += len(hits)
+            ctx.count('search', (tkey, q, sc_all, complete), nontrivial=bool(hits))
+            check_search(ctx, root, srcs, exp, q, sc_all, complete, hits, tree_meta)
+    ctx.stat('search', stats)
+    if tasks and results[0] and results[0][0].get('ok'):
+        ctx.sample(dict(stream='search', query=tasks[0][2][0], hits=results[0][0]['hits'][:6]))
+    return
+    yield   # (a generator like the other streams; no Coq job)
+
+
+STREAMS = [stream_walk, stream_script, stream_search, stream_gitignore, stream_expand, stream_split, stream_dedupe, stream_limits]
+
+
+def drive(ctx, streams):
+    """Phase 1: every stream generates its inputs and runs the implementation (sequential, seeded);
+    phase 2: all Coq evaluations concurrently; phase 3: every stream looks at its disagreements."""
+    from concurrent.futures import ThreadPoolExecutor
+    pending = []
+    for f in streams:
+        t = time.time()
+        g = f(ctx)
+        try:
+            job = next(g)
+        except StopIteration:
+            job = None
+        ctx.stat('wall_' + f.__name__, round(time.time() - t, 1))
+        if job is not None:
+            pending.append((f, g, job))
+    t = time.time()
+
+    def ev(p):
+        fn, cases, shard, defs = p[2]
+        t0 = time.time()
+        r = common.coq_failing(IMPORTS, fn, cases, shard=shard, defs=defs)
+        ctx.stat('wall_coq_' + p[0].__name__, round(time.time() - t0, 1))
+        return r
+    with ThreadPoolExecutor(max_workers=max(1, len(pending))) as ex:
+        outs = list(ex.map(ev, pending))
+    ctx.stat('wall_coq_all_streams', round(time.time() - t, 1))
+    for (f, g, job), out in zip(pending, outs):
+        try:
+            g.send(out)
+        except StopIteration:
+            pass
+        else:
+            raise RuntimeError('stream %s yielded twice' % f.__name__)
+
+
 def run(ctx):
     common.setup_jedi(os.path.join(ctx.tmp, 'cache'))
     ctx.proofs()
     ctx.cov['fingerprints'] = common.fingerprint(FP)
-    for f in (stream_walk,):
-        t = time.time()
-        f(ctx)
-        ctx.stat('wall_' + f.__name__, round(time.time() - t, 1))
+    ctx.cov['rule'] = ('gitignore/expand/split/dedupe/limits: fixed edge cases + seeded random inputs to the anchored helper, model '
+                       'evaluated by vm_compute; walk: seeded project trees on disk (<=30 files, depth<=4, .gitignore at several levels, '
+                       'absolute/relative/file entries, comment/negation/wildcard/blank lines, prefix-sibling folders), ordered output vs '
+                       'model + set oracle; script: seeded buffers x search strings; search: seeded trees x every sampled '
+                       'identifier/module/folder x {search, complete_search} x all_scopes; non-trivial = something is ignored (walk) / '
+                       'non-empty result (others); distinct by input')
+    ctx.assumptions += [
+        'the project root string does not end in "/" and is normalised (Project passes str(Path)); names in a listing contain no "/" (wf_tree)',
+        'listing order is what os.scandir returns; the harness reads it back and hands it to the model',
+        'no symlinks, no unreadable folders, .gitignore files are valid UTF-8',
+        'Script.search: undotted search strings, ASCII identifiers (model lower-cases A-Z only); dotted searches and stub conversion are oracle-only',
+        'which names get_names returns is parso/jedi behaviour: checked against the generator\'s own list of definitions, not modelled',
+    ]
+    # the forking streams first (no threads yet), the Coq evaluations of all streams together at the end
+    drive(ctx, STREAMS)
 
 
 def replay(ctx, path):
     rec = json.load(open(path))
-    print(json.dumps(rec, indent=1, ensure_ascii=False)[:4000])
+    print(json.dumps({k: v for k, v in rec.items() if k != 'tree'}, indent=1, ensure_ascii=False)[:3000])
+    common.setup_jedi(os.path.join(ctx.tmp, 'cache'))
+    if 'tree' in rec:
+        root = tree_from_json(rec['tree'])
+        p = os.path.join(ctx.tmp, 'replay')
+        write_tree(root, p)
+        read_order(root, p)
+        obs = [(d, canon(x, p)) for d, x in real_walk(p)]
+        print('implementation walk now:', obs)
+        vis_f, vis_d, hid_f, hid_d = oracle_visible(root)
+        print('oracle visible files:', sorted('/'.join(k) for k in vis_f))
+        print('oracle hidden files :', sorted('/'.join(k) for k in hid_f))
+        print('model:', common.coq_show(IMPORTS, ['walk %s %s' % (g_str(FAKE_ROOT), g_tree(root))])[-2000:])
+        if 'query' in rec:
+            import jedi
+            r = _search_queries(jedi, p, [(rec['query'], rec.get('all_scopes', False), rec.get('complete', False))])
+            print('implementation search now:', r)
+    elif 'source' in rec and 'query' in rec:
+        print('implementation now:', _script_task((rec['source'], [(rec['query'], rec.get('all_scopes', False), rec.get('complete', False))])))
     return 0
